@@ -6,19 +6,15 @@ CONSTANTS
   QStrands = {"."}
   NContigs = 1
   MemoCap = 4
-  MaxFeat = 3
+  MaxFeat = 2
   MaxSorts = 2
   MaxQueries = 2
   BetweenOn = TRUE
   AnnotLevel = 1
-  UnsortedQueries = TRUE
+  UnsortedQueries = FALSE
   TrackHist = FALSE
-  Variant = "design"
+  Variant = "sortonly"
 INVARIANT Inv_C16_At
 INVARIANT Inv_C16_Between
 INVARIANT Inv_C16_Annotate
-INVARIANT Inv_D_MemoFresh
-INVARIANT Inv_D_MemoEmptyWhenUnsorted
-INVARIANT Inv_D_IndexFresh
-INVARIANT Inv_D_MemoBound
 CHECK_DEADLOCK FALSE
